@@ -31,7 +31,7 @@ def run(ctx):
                 'explicitly; every connectivity table of the input present, renumbered as the model says, consistent with the '
                 'others, same integer type and index base in the saved file; plus select_variables on subsets of the data variables. '
                 'non-trivial = the clip drops at least one cell; distinct by case description')
-    fl, tmp = cc.flows(ctx, 30 if quick else 140, quick)
+    fl, tmp = cc.flows(ctx, 35 if quick else 140, quick)
     exprs, plans = [], []
     try:
         for f in fl:
